@@ -28,7 +28,7 @@ ASSUMPTIONS = ['label values are strings (the statement); result lists hold '
                'way']
 
 LABELS = {'day': ['Mon', 'Tue', 'Wed'], 'meal': ['lunch', 'dinner'],
-          'cook': ['Terry', 'John', 'Eric', 'Graham']}
+          'cook': ['Terry', 'John', 'Eric', 'Graham', '']}
 
 
 def plan(tier, seed):
@@ -87,6 +87,63 @@ def gen_case(rng):
 
 def names_of(lst):
     return Counter(str(x) for x in lst)
+
+
+def helper_case(seed, idx, rec):
+    '''The task_stats() helper on a list of tasks in which some appear twice
+    and some only as dependencies: every task counted once.'''
+    from valjean.cosette.task import DelayTask, TaskStatus
+    from valjean.cosette.env import Env
+    from valjean.config import Config
+    from valjean.gavroche.diagnostics.stats import task_stats
+    rng = core.rng_for(seed, PROP, 'helper', idx)
+    case = {'seed': seed, 'idx': idx, 'helper': True}
+    num = rng.randint(2, 7)
+    tasks = [DelayTask(f'hc{seed}_{idx}_{i}', 0) for i in range(num)]
+    for i, task in enumerate(tasks):
+        for j in range(i):
+            rnd = rng.random()
+            if rnd < 0.2:
+                task.depends_on.add(tasks[j])
+            elif rnd < 0.3:
+                task.soft_depends_on.add(tasks[j])
+    listed = rng.sample(tasks, rng.randint(1, num))
+    listed += rng.sample(listed, rng.randint(0, len(listed)))   # repeats
+    rng.shuffle(listed)
+    want, todo = set(), list(listed)
+    while todo:
+        task = todo.pop()
+        if task.name not in want:
+            want.add(task.name)
+            todo.extend(task.depends_on)
+            todo.extend(task.soft_depends_on)
+    env = Env()
+    statuses = {}
+    for task in tasks:
+        statuses[task.name] = rng.choice(list(TaskStatus))
+        env[task.name] = {'status': statuses[task.name]}
+    stats = task_stats(name=f'summary{seed}_{idx}', tasks=listed)
+    create = next(iter(stats.depends_on))
+    try:
+        update, _ = create.do(env, Config())
+        test = update[create.name]['result'][0]
+        res = test.evaluate()
+    except Exception as err:  # pylint: disable=broad-except
+        rec.violation('task-stats-helper-raised-' + type(err).__name__,
+                      repr(err), case)
+        return
+    rec.count('helper_summaries_checked')
+    got = Counter()
+    for status, names in res.classify.items():
+        for name in names:
+            got[(str(name), status)] += 1
+    exp = Counter({(name, statuses[name]): 1 for name in want})
+    if got != exp:
+        twice = sorted(k[0] for k, v in got.items() if v > 1)
+        rec.violation('task-classification', 'task_stats() helper on '
+                      f'{[t.name for t in listed]}: listed twice {twice}, '
+                      f'missing {sorted(set(exp) - set(got))[:4]}, '
+                      f'unexpected {sorted(set(got) - set(exp))[:4]}', case)
 
 
 def run_case(seed, idx, rec):
@@ -261,11 +318,17 @@ def run_case(seed, idx, rec):
 
 
 def run(spec, rec):
+    for idx in range(spec['lo'], spec['hi']):
+        if idx % 5 == 0:
+            helper_case(spec['seed'], idx, rec)
     warnings.simplefilter('ignore')
     for idx in range(spec['lo'], spec['hi']):
         run_case(spec['seed'], idx, rec)
 
 
 def replay(case, rec):
+    if case.get('helper'):
+        helper_case(case['seed'], case['idx'], rec)
+        return
     warnings.simplefilter('ignore')
     run_case(case['seed'], case['idx'], rec)
